@@ -172,6 +172,9 @@ func c18CheckState(r *verifkit.Run, where string, st state.ClusterState) {
 // codec must have exactly the in-memory shape (nil vs empty included), not just
 // the same canonical bytes.
 func c18DeepDiff(a, b state.ClusterState) string {
+	if c18SkipDeep {
+		return ""
+	}
 	switch {
 	case a.SchemaVersion != b.SchemaVersion || a.ClusterID != b.ClusterID || a.Revision != b.Revision || a.AppliedRaftIndex != b.AppliedRaftIndex || a.Checksum != b.Checksum:
 		return "header"
@@ -200,6 +203,12 @@ func c18DeepDiff(a, b state.ClusterState) string {
 	}
 	return ""
 }
+
+// c18SkipDeep (VERIF_C18_SKIP_DEEP=1) switches the direct deep-equality
+// assertions off. It exists only for sensitivity experiments that want to see
+// whether the differential restart variants alone catch a codec-shape bug; the
+// runner never sets it.
+var c18SkipDeep = os.Getenv("VERIF_C18_SKIP_DEEP") == "1"
 
 func c18ShapeJSON(v any) string {
 	return fmt.Sprintf("%#v", v)
